@@ -5,6 +5,7 @@ func init() {
 		ID: "C06",
 		Rules: []RuleSpec{
 			{"err-discipline", "no error returned by a function of the module is discarded (called as a statement or assigned to _) in block acceptance (pkg/core, dao, block), except at the tabled sites whose reason is recorded: a dropped error is a dropped check or a lost write", func(c *Ctx) { ruleErrDiscipline(c, "pkg/core", "pkg/core/dao", "pkg/core/block") }},
+			{"enum-switch", "every switch over a module enumeration (named integer type with at least three constants) has a default clause or names every kind: no kind falls through a default-less switch silently", func(c *Ctx) { ruleEnumSwitch(c, "pkg/core", "pkg/core/dao", "pkg/core/block") }},
 			{"loop-accumulator", "a boolean that summarises a loop (some element needs X / all elements satisfy Y) and is read after it is accumulated monotonically - set to a constant, combined with its previous value, assigned under a test of itself, or followed by leaving the loop - never overwritten by the value computed for the current element only", func(c *Ctx) { ruleLoopAccumulator(c, "pkg/core", "pkg/core/dao", "pkg/core/block") }},
 			{"commit-point", "no error exit of storeBlock is reachable after the PersistPrivate publish (one tabled exception), and the publish is gated by the MPT update and the storing goroutine's outcome", ruleCommitPoint},
 			{"accept-dominators", "every acceptance check (index, state-root setting, header link/verification, Merkle root, per-transaction verification; header chain checks and witness against the previous NextConsensus) gates storeBlock / HeaderHashes.addHeaders on every CFG path", ruleAcceptDominators},
@@ -15,6 +16,7 @@ func init() {
 		ID: "C04",
 		Rules: []RuleSpec{
 			{"err-discipline", "no error returned by a function of the module is discarded (called as a statement or assigned to _) in the interop layer and the natives, except at the tabled sites whose reason is recorded: a dropped error is a dropped check or a lost write", func(c *Ctx) { ruleErrDiscipline(c, "pkg/core/interop", "pkg/core/interop/contract", "pkg/core/interop/storage", "pkg/core/native") }},
+			{"enum-switch", "every switch over a module enumeration (named integer type with at least three constants) has a default clause or names every kind: no kind falls through a default-less switch silently", func(c *Ctx) { ruleEnumSwitch(c, "pkg/core/interop", "pkg/core/interop/contract", "pkg/core/interop/storage", "pkg/core/native") }},
 			{"loop-accumulator", "a boolean that summarises a loop (some element needs X / all elements satisfy Y) and is read after it is accumulated monotonically - set to a constant, combined with its previous value, assigned under a test of itself, or followed by leaving the loop - never overwritten by the value computed for the current element only", func(c *Ctx) { ruleLoopAccumulator(c, "pkg/core/interop", "pkg/core/interop/contract", "pkg/core/interop/storage", "pkg/core/native") }},
 			{"tx-commit-guard", "the per-transaction DAO layer is persisted only on the non-fault branch, it is the private layer of a context created for that transaction, and OnPersist/PostPersist persist only after a successful Exec", ruleTxCommitGuard},
 			{"unload-rollback", "the unload callback of a wrapped call persists only on commit, cuts notifications back and restores the base DAO layer on every exit; baselines are captured before the callee is loaded; the VM passes commit = no uncaught exception; ContractHasTryBlock scans every handler of every frame", ruleUnloadRollback},
@@ -31,6 +33,7 @@ func init() {
 			{"limit-coherence", "the trie's key and value limits (enforced on its read paths only) cover what contract storage accepts on the write path: 4-byte contract id + MaxStorageKeyLen, MaxStorageValueLen", ruleLimitCoherence},
 			{"value-absence", "in package mpt a []byte that becomes a leaf value is never tested for absence by its length (nil means absent, an empty value is a stored value)", ruleValueAbsence},
 			{"err-discipline", "no error returned by a function of the module is discarded (called as a statement or assigned to _) in the trie and state-root packages, except at the tabled sites whose reason is recorded: a dropped error is a dropped check or a lost write", func(c *Ctx) { ruleErrDiscipline(c, "pkg/core/mpt", "pkg/core/stateroot") }},
+			{"enum-switch", "every switch over a module enumeration (named integer type with at least three constants) has a default clause or names every kind: no kind falls through a default-less switch silently", func(c *Ctx) { ruleEnumSwitch(c, "pkg/core/mpt", "pkg/core/stateroot") }},
 			{"loop-accumulator", "a boolean that summarises a loop (some element needs X / all elements satisfy Y) and is read after it is accumulated monotonically - set to a constant, combined with its previous value, assigned under a test of itself, or followed by leaving the loop - never overwritten by the value computed for the current element only", func(c *Ctx) { ruleLoopAccumulator(c, "pkg/core/mpt", "pkg/core/stateroot") }},
 			{"proof-key", "VerifyProof walks from NewHashNode(root) over a store of its own in strict mode, and stores every proof element under the double-SHA256 of that very element", ruleProofKey},
 			{"historic-root", "the historic VM's trie store is rooted at GetStateRoot(b.Index-1) of the block it executes in, over a private cache layer, and refuses garbage-collected heights", ruleHistoricRoot},
@@ -44,6 +47,7 @@ func init() {
 		ID: "C02",
 		Rules: []RuleSpec{
 			{"err-discipline", "no error returned by a function of the module is discarded (called as a statement or assigned to _) in the ledger, its DAO and the stores, except at the tabled sites whose reason is recorded: a dropped error is a dropped check or a lost write", func(c *Ctx) { ruleErrDiscipline(c, "pkg/core", "pkg/core/dao", "pkg/core/storage") }},
+			{"enum-switch", "every switch over a module enumeration (named integer type with at least three constants) has a default clause or names every kind: no kind falls through a default-less switch silently", func(c *Ctx) { ruleEnumSwitch(c, "pkg/core", "pkg/core/dao", "pkg/core/storage") }},
 			{"loop-accumulator", "a boolean that summarises a loop (some element needs X / all elements satisfy Y) and is read after it is accumulated monotonically - set to a constant, combined with its previous value, assigned under a test of itself, or followed by leaving the loop - never overwritten by the value computed for the current element only", func(c *Ctx) { ruleLoopAccumulator(c, "pkg/core", "pkg/core/dao", "pkg/core/storage") }},
 			{"stage-machine", "reset and jump are well-formed stage machines: unknown stage is an error; each stage ends by recording the label of the next clause as its last write and persists that layer before falling through; no value captured before the switch from a field a stage changes is used after that stage; the tail removes the marker; start-up resumes from it", ruleStageMachine},
 			{"cache-init", "a node reopened after a crash rebuilds every native cache field from storage and raises the in-memory dirty flags that have no storage record (votesChanged), so the blocks that follow give the same state roots as on a node that never stopped", ruleCacheInit},
@@ -58,6 +62,7 @@ func init() {
 		ID: "C20",
 		Rules: []RuleSpec{
 			{"err-discipline", "no error returned by a function of the module is discarded (called as a statement or assigned to _) in state sync and the block queue, except at the tabled sites whose reason is recorded: a dropped error is a dropped check or a lost write", func(c *Ctx) { ruleErrDiscipline(c, "pkg/core/statesync", "pkg/network/bqueue") }},
+			{"enum-switch", "every switch over a module enumeration (named integer type with at least three constants) has a default clause or names every kind: no kind falls through a default-less switch silently", func(c *Ctx) { ruleEnumSwitch(c, "pkg/core/statesync", "pkg/network/bqueue") }},
 			{"loop-accumulator", "a boolean that summarises a loop (some element needs X / all elements satisfy Y) and is read after it is accumulated monotonically - set to a constant, combined with its previous value, assigned under a test of itself, or followed by leaving the loop - never overwritten by the value computed for the current element only", func(c *Ctx) { ruleLoopAccumulator(c, "pkg/core/statesync", "pkg/network/bqueue") }},
 			{"lock-pairing", "in pkg/network/bqueue and pkg/core/statesync every mutex acquired is released on every exit (defer-aware, boolean-correlated; the hand-unlocked Blocking branch of Queue.Put included)", func(c *Ctx) { lockPairingPkgs(c, []string{"pkg/network/bqueue", "pkg/core/statesync"}, nil, 10) }},
 			{"lockset", "the block queue's ring/len/lastQ and the state-sync module's stage, sync point, heights, tries and node pool are read and written only while the owning mutex is held (write lock for writes), in methods every call site of which holds it, or in the tabled traversal callback", ruleLocksetSync},
@@ -71,6 +76,7 @@ func init() {
 		ID: "C12",
 		Rules: []RuleSpec{
 			{"err-discipline", "no error returned by a function of the module is discarded (called as a statement or assigned to _) in the VM, except at the tabled sites whose reason is recorded: a dropped error is a dropped check or a lost write", func(c *Ctx) { ruleErrDiscipline(c, "pkg/vm", "pkg/vm/stackitem") }},
+			{"enum-switch", "every switch over a module enumeration (named integer type with at least three constants) has a default clause or names every kind: no kind falls through a default-less switch silently", func(c *Ctx) { ruleEnumSwitch(c, "pkg/vm", "pkg/vm/stackitem") }},
 			{"loop-accumulator", "a boolean that summarises a loop (some element needs X / all elements satisfy Y) and is read after it is accumulated monotonically - set to a constant, combined with its previous value, assigned under a test of itself, or followed by leaving the loop - never overwritten by the value computed for the current element only", func(c *Ctx) { ruleLoopAccumulator(c, "pkg/vm", "pkg/vm/stackitem") }},
 			{"opcode-tables", "every Opcode constant is valid in the decoder table, dispatched by vm.execute (arm or PUSHINT range test, faulting default), priced in fee.coefficients, and operand usage agrees between decoder and dispatcher", ruleOpcodeTables},
 			{"panic-scope", "execute starts by deferring the recover + MaxStackSize closure, is entered only from step/StepInto, and nothing reachable from Run/Step* outside it panics explicitly", rulePanicScope},
@@ -86,6 +92,7 @@ func init() {
 		ID: "C13",
 		Rules: []RuleSpec{
 			{"err-discipline", "no error returned by a function of the module is discarded (called as a statement or assigned to _) in the VM, except at the tabled sites whose reason is recorded: a dropped error is a dropped check or a lost write", func(c *Ctx) { ruleErrDiscipline(c, "pkg/vm", "pkg/vm/stackitem") }},
+			{"enum-switch", "every switch over a module enumeration (named integer type with at least three constants) has a default clause or names every kind: no kind falls through a default-less switch silently", func(c *Ctx) { ruleEnumSwitch(c, "pkg/vm", "pkg/vm/stackitem") }},
 			{"loop-accumulator", "a boolean that summarises a loop (some element needs X / all elements satisfy Y) and is read after it is accumulated monotonically - set to a constant, combined with its previous value, assigned under a test of itself, or followed by leaving the loop - never overwritten by the value computed for the current element only", func(c *Ctx) { ruleLoopAccumulator(c, "pkg/vm", "pkg/vm/stackitem") }},
 			{"opcode-tables", "every Opcode constant is valid in the decoder table, dispatched by vm.execute (arm or PUSHINT range test, faulting default), priced in fee.coefficients, and operand usage agrees between decoder and dispatcher", ruleOpcodeTables},
 			{"bigint-ctor", "conversions to *stackitem.BigInteger exist only in package stackitem, each after CheckIntegerSize or from a <=64-bit source (every integer result passes the 256-bit range check)", ruleBigintCtor},
@@ -98,6 +105,7 @@ func init() {
 		ID: "C16",
 		Rules: []RuleSpec{
 			{"err-discipline", "no error returned by a function of the module is discarded (called as a statement or assigned to _) in manifests and contract calls, except at the tabled sites whose reason is recorded: a dropped error is a dropped check or a lost write", func(c *Ctx) { ruleErrDiscipline(c, "pkg/smartcontract/manifest", "pkg/core/interop/contract", "pkg/core/interop") }},
+			{"enum-switch", "every switch over a module enumeration (named integer type with at least three constants) has a default clause or names every kind: no kind falls through a default-less switch silently", func(c *Ctx) { ruleEnumSwitch(c, "pkg/smartcontract/manifest", "pkg/core/interop/contract", "pkg/core/interop") }},
 			{"loop-accumulator", "a boolean that summarises a loop (some element needs X / all elements satisfy Y) and is read after it is accumulated monotonically - set to a constant, combined with its previous value, assigned under a test of itself, or followed by leaving the loop - never overwritten by the value computed for the current element only", func(c *Ctx) { ruleLoopAccumulator(c, "pkg/smartcontract/manifest", "pkg/core/interop/contract", "pkg/core/interop") }},
 			{"flags-effects", "for every system call and native-method registration the effects of the handler over the module-restricted call graph (contract-storage write, notification, script load) are covered by the declared required flags (legacy superseded registrations and the payment callback tabled)", ruleFlagsEffects},
 			{"native-flag-check", "native.Call and Context.SyscallHandler invoke the handler only behind the Has(RequiredFlags) test; the historical relaxation is confined to pre-Aspidochelone Management deploy/update", ruleFlagChecks},
@@ -111,6 +119,7 @@ func init() {
 		ID: "C15",
 		Rules: []RuleSpec{
 			{"err-discipline", "no error returned by a function of the module is discarded (called as a statement or assigned to _) in witness checking, except at the tabled sites whose reason is recorded: a dropped error is a dropped check or a lost write", func(c *Ctx) { ruleErrDiscipline(c, "pkg/core/interop/runtime", "pkg/core/transaction") }},
+			{"enum-switch", "every switch over a module enumeration (named integer type with at least three constants) has a default clause or names every kind: no kind falls through a default-less switch silently", func(c *Ctx) { ruleEnumSwitch(c, "pkg/core/interop/runtime", "pkg/core/transaction") }},
 			{"loop-accumulator", "a boolean that summarises a loop (some element needs X / all elements satisfy Y) and is read after it is accumulated monotonically - set to a constant, combined with its previous value, assigned under a test of itself, or followed by leaving the loop - never overwritten by the value computed for the current element only", func(c *Ctx) { ruleLoopAccumulator(c, "pkg/core/interop/runtime", "pkg/core/transaction") }},
 			{"cond-tables", "each witness-condition kind is reported by exactly one type; the binary, stack-item and JSON decoders have an arm for every kind constructing that type, reject unknown kinds, and recurse with a strictly decreasing, tested depth", ruleCondTables},
 			{"cond-context", "each condition's Match consults exactly the match-context method its kind prescribes; the runtime adapters do not swap calling/current; every allowing exit of checkScope is gated by the account match and by the context test of its scope", ruleCondContext},
@@ -121,6 +130,7 @@ func init() {
 		ID: "C09",
 		Rules: []RuleSpec{
 			{"err-discipline", "no error returned by a function of the module is discarded (called as a statement or assigned to _) in the stores and the DAO, except at the tabled sites whose reason is recorded: a dropped error is a dropped check or a lost write", func(c *Ctx) { ruleErrDiscipline(c, "pkg/core/storage", "pkg/core/dao") }},
+			{"enum-switch", "every switch over a module enumeration (named integer type with at least three constants) has a default clause or names every kind: no kind falls through a default-less switch silently", func(c *Ctx) { ruleEnumSwitch(c, "pkg/core/storage", "pkg/core/dao") }},
 			{"loop-accumulator", "a boolean that summarises a loop (some element needs X / all elements satisfy Y) and is read after it is accumulated monotonically - set to a constant, combined with its previous value, assigned under a test of itself, or followed by leaving the loop - never overwritten by the value computed for the current element only", func(c *Ctx) { ruleLoopAccumulator(c, "pkg/core/storage", "pkg/core/dao") }},
 			{"lock-pairing", "in pkg/core/storage every mutex acquired is released on every exit (conditional wrappers analysed for shared stores; the isSync-correlated unlock/relock of persist included)", func(c *Ctx) { lockPairingPkgs(c, []string{stPkg}, storageAssume, 10) }},
 			{"lockset", "every access of mem/stor/ps of a shared MemoryStore/MemCachedStore happens under the store's mutex (write lock for writes) or in a caller-holds-lock function whose call sites hold it; a function that reads a cache map and ps for one answer does so in one critical section; seek gets matching lockers", ruleStoreLockset},
@@ -137,6 +147,7 @@ func init() {
 		ID: "C01",
 		Rules: []RuleSpec{
 			{"err-discipline", "no error returned by a function of the module is discarded (called as a statement or assigned to _) in the native contracts, except at the tabled sites whose reason is recorded: a dropped error is a dropped check or a lost write", func(c *Ctx) { ruleErrDiscipline(c, "pkg/core/native", "pkg/core/state") }},
+			{"enum-switch", "every switch over a module enumeration (named integer type with at least three constants) has a default clause or names every kind: no kind falls through a default-less switch silently", func(c *Ctx) { ruleEnumSwitch(c, "pkg/core/native", "pkg/core/state") }},
 			{"loop-accumulator", "a boolean that summarises a loop (some element needs X / all elements satisfy Y) and is read after it is accumulated monotonically - set to a constant, combined with its previous value, assigned under a test of itself, or followed by leaving the loop - never overwritten by the value computed for the current element only", func(c *Ctx) { ruleLoopAccumulator(c, "pkg/core/native", "pkg/core/state") }},
 			{"cache-ro", "no write (field, element, delete/clear/copy, or through a parameter-mutating callee) through a native cache obtained with GetROCache, on any path (isCacheRW idiom handled by boolean correlation)", ruleCacheRO},
 			{"det-sources", "no wall clock, random source, environment or scheduler introspection is read in the closure of block processing except for values that flow only into logging/metrics", ruleDetSources},
@@ -158,6 +169,7 @@ func init() {
 			{"limit-coherence", "the trie's key and value limits (enforced on its read paths only) cover what contract storage accepts on the write path: 4-byte contract id + MaxStorageKeyLen, MaxStorageValueLen", ruleLimitCoherence},
 			{"value-absence", "in package mpt a []byte that becomes a leaf value is never tested for absence by its length (nil means absent, an empty value is a stored value)", ruleValueAbsence},
 			{"err-discipline", "no error returned by a function of the module is discarded (called as a statement or assigned to _) in package mpt, except at the tabled sites whose reason is recorded: a dropped error is a dropped check or a lost write", func(c *Ctx) { ruleErrDiscipline(c, "pkg/core/mpt") }},
+			{"enum-switch", "every switch over a module enumeration (named integer type with at least three constants) has a default clause or names every kind: no kind falls through a default-less switch silently", func(c *Ctx) { ruleEnumSwitch(c, "pkg/core/mpt") }},
 			{"loop-accumulator", "a boolean that summarises a loop (some element needs X / all elements satisfy Y) and is read after it is accumulated monotonically - set to a constant, combined with its previous value, assigned under a test of itself, or followed by leaving the loop - never overwritten by the value computed for the current element only", func(c *Ctx) { ruleLoopAccumulator(c, "pkg/core/mpt") }},
 			{"proof-key", "VerifyProof walks from NewHashNode(root) over a store of its own in strict mode, and stores every proof element under the double-SHA256 of that very element", ruleProofKey},
 			{"node-switch", "type switches dispatching over trie node kinds cover all five kinds or fail in their default arm", ruleNodeSwitch},
@@ -172,6 +184,7 @@ func init() {
 		ID: "C11",
 		Rules: []RuleSpec{
 			{"err-discipline", "no error returned by a function of the module is discarded (called as a statement or assigned to _) in the trie and state-root packages, except at the tabled sites whose reason is recorded: a dropped error is a dropped check or a lost write", func(c *Ctx) { ruleErrDiscipline(c, "pkg/core/mpt", "pkg/core/stateroot") }},
+			{"enum-switch", "every switch over a module enumeration (named integer type with at least three constants) has a default clause or names every kind: no kind falls through a default-less switch silently", func(c *Ctx) { ruleEnumSwitch(c, "pkg/core/mpt", "pkg/core/stateroot") }},
 			{"loop-accumulator", "a boolean that summarises a loop (some element needs X / all elements satisfy Y) and is read after it is accumulated monotonically - set to a constant, combined with its previous value, assigned under a test of itself, or followed by leaving the loop - never overwritten by the value computed for the current element only", func(c *Ctx) { ruleLoopAccumulator(c, "pkg/core/mpt", "pkg/core/stateroot") }},
 			{"mpt-reader", "Trie methods read node records only through the mode-aware getFromStore, which reports inactive records as (nil, not found); the reference-count suffix is written and read in one format", ruleMPTReader},
 			{"store-value-immutable", "Trie methods never modify in place a slice obtained from the store (counter updates work on a copy), so a trie computed over a private layer and dropped leaves stored records untouched", ruleStoreValueImmutable},
@@ -184,6 +197,7 @@ func init() {
 		ID: "C05",
 		Rules: []RuleSpec{
 			{"err-discipline", "no error returned by a function of the module is discarded (called as a statement or assigned to _) in the native contracts, except at the tabled sites whose reason is recorded: a dropped error is a dropped check or a lost write", func(c *Ctx) { ruleErrDiscipline(c, "pkg/core/native", "pkg/core/state") }},
+			{"enum-switch", "every switch over a module enumeration (named integer type with at least three constants) has a default clause or names every kind: no kind falls through a default-less switch silently", func(c *Ctx) { ruleEnumSwitch(c, "pkg/core/native", "pkg/core/state") }},
 			{"loop-accumulator", "a boolean that summarises a loop (some element needs X / all elements satisfy Y) and is read after it is accumulated monotonically - set to a constant, combined with its previous value, assigned under a test of itself, or followed by leaving the loop - never overwritten by the value computed for the current element only", func(c *Ctx) { ruleLoopAccumulator(c, "pkg/core/native", "pkg/core/state") }},
 			{"token-writers", "account balances, total supply, voters count, candidate records and notary deposits are written only by the tabled functions that keep them consistent; saveTotalSupply runs only inside addTokens; a stored candidate record is never replaced by a blank one", ruleTokenWriters},
 			{"amount-immutable", "no native function leaves a *big.Int parameter modified: in-place negation is flipped back on every path, no other mutator has a parameter as receiver (the amount of an already emitted Transfer event is the same integer)", ruleAmountImmutable},
@@ -194,6 +208,7 @@ func init() {
 		ID: "C19",
 		Rules: []RuleSpec{
 			{"err-discipline", "no error returned by a function of the module is discarded (called as a statement or assigned to _) in the consensus service, except at the tabled sites whose reason is recorded: a dropped error is a dropped check or a lost write", func(c *Ctx) { ruleErrDiscipline(c, "pkg/consensus") }},
+			{"enum-switch", "every switch over a module enumeration (named integer type with at least three constants) has a default clause or names every kind: no kind falls through a default-less switch silently", func(c *Ctx) { ruleEnumSwitch(c, "pkg/consensus") }},
 			{"loop-accumulator", "a boolean that summarises a loop (some element needs X / all elements satisfy Y) and is read after it is accumulated monotonically - set to a constant, combined with its previous value, assigned under a test of itself, or followed by leaving the loop - never overwritten by the value computed for the current element only", func(c *Ctx) { ruleLoopAccumulator(c, "pkg/consensus") }},
 			{"proposal-dominators", "verifyBlock accepts only behind the height/timestamp/size/system-fee checks and per-transaction verification; verifyRequest only behind prev-hash/version/state-root/count checks; the block witness takes commits of the current view only, in validator order; the proposed transaction set is cut after (not before) adding the transaction that overflows a limit", ruleProposalDominators},
 			{"loop-confinement", "dBFT state and the service's loop-owned fields are not touched by anything reachable from the methods other goroutines call (OnPayload, OnTransaction, Shutdown, Name)", ruleLoopConfinement},
@@ -204,6 +219,7 @@ func init() {
 		ID: "C17",
 		Rules: []RuleSpec{
 			{"err-discipline", "no error returned by a function of the module is discarded (called as a statement or assigned to _) in the codecs, except at the tabled sites whose reason is recorded: a dropped error is a dropped check or a lost write", func(c *Ctx) { ruleErrDiscipline(c, "pkg/io", "pkg/core/transaction", "pkg/core/block", "pkg/network/payload", "pkg/vm/stackitem", "pkg/core/state") }},
+			{"enum-switch", "every switch over a module enumeration (named integer type with at least three constants) has a default clause or names every kind: no kind falls through a default-less switch silently", func(c *Ctx) { ruleEnumSwitch(c, "pkg/io", "pkg/core/transaction", "pkg/core/block", "pkg/network/payload", "pkg/vm/stackitem", "pkg/core/state") }},
 			{"loop-accumulator", "a boolean that summarises a loop (some element needs X / all elements satisfy Y) and is read after it is accumulated monotonically - set to a constant, combined with its previous value, assigned under a test of itself, or followed by leaving the loop - never overwritten by the value computed for the current element only", func(c *Ctx) { ruleLoopAccumulator(c, "pkg/io", "pkg/core/transaction", "pkg/core/block", "pkg/network/payload", "pkg/vm/stackitem", "pkg/core/state") }},
 			{"hash-canonical", "every cached identity (hash/size of transaction, header, extensible, notary request) is computed from the node's own encoding, or from received bytes only if the length decoder rejects non-minimal encodings", ruleHashCanonical},
 			{"codec-symmetry", "for every type with EncodeBinary and DecodeBinary the sequences of wire primitives on the writer/reader agree token by token when both are straight-line; otherwise the sets of primitive kinds agree", ruleCodecSymmetry},
@@ -217,6 +233,7 @@ func init() {
 		ID: "C07",
 		Rules: []RuleSpec{
 			{"err-discipline", "no error returned by a function of the module is discarded (called as a statement or assigned to _) in transaction admission (pkg/core, mempool, transaction, fee), except at the tabled sites whose reason is recorded: a dropped error is a dropped check or a lost write", func(c *Ctx) { ruleErrDiscipline(c, "pkg/core", "pkg/core/mempool", "pkg/core/transaction", "pkg/core/fee") }},
+			{"enum-switch", "every switch over a module enumeration (named integer type with at least three constants) has a default clause or names every kind: no kind falls through a default-less switch silently", func(c *Ctx) { ruleEnumSwitch(c, "pkg/core", "pkg/core/mempool", "pkg/core/transaction", "pkg/core/fee") }},
 			{"loop-accumulator", "a boolean that summarises a loop (some element needs X / all elements satisfy Y) and is read after it is accumulated monotonically - set to a constant, combined with its previous value, assigned under a test of itself, or followed by leaving the loop - never overwritten by the value computed for the current element only", func(c *Ctx) { ruleLoopAccumulator(c, "pkg/core", "pkg/core/mempool", "pkg/core/transaction", "pkg/core/fee") }},
 			{"attr-exhaustive", "every attribute kind has an arm in the binary decoder, the encoder and verifyTxAttributes; decoder and encoder reject unknown kinds", ruleAttrExhaustive},
 			{"hash-canonical", "a cached identity (hash/size) is computed from the node's own encoding, or from received bytes only if the length decoder rejects non-minimal encodings (the same content must be the same transaction in every accepted encoding)", ruleHashCanonical},
@@ -229,6 +246,7 @@ func init() {
 		ID: "C08",
 		Rules: []RuleSpec{
 			{"err-discipline", "no error returned by a function of the module is discarded (called as a statement or assigned to _) in the mempool, except at the tabled sites whose reason is recorded: a dropped error is a dropped check or a lost write", func(c *Ctx) { ruleErrDiscipline(c, "pkg/core/mempool") }},
+			{"enum-switch", "every switch over a module enumeration (named integer type with at least three constants) has a default clause or names every kind: no kind falls through a default-less switch silently", func(c *Ctx) { ruleEnumSwitch(c, "pkg/core/mempool") }},
 			{"loop-accumulator", "a boolean that summarises a loop (some element needs X / all elements satisfy Y) and is read after it is accumulated monotonically - set to a constant, combined with its previous value, assigned under a test of itself, or followed by leaving the loop - never overwritten by the value computed for the current element only", func(c *Ctx) { ruleLoopAccumulator(c, "pkg/core/mempool") }},
 			{"lock-pairing", "in pkg/core/mempool every mutex acquired is released on every exit of every function (defer-aware, boolean-correlated), never released unheld, never re-acquired while held", func(c *Ctx) { lockPairingPkgs(c, []string{"pkg/core/mempool"}, nil, 10) }},
 			{"add-failure-atomic", "no write to verifiedMap/verifiedTxes/fees/conflicts/oracleResp (direct or through a Pool method) lies on a CFG path to a non-nil error return of Pool.Add or checkTxConflicts (tabled: removal before the infeasible capacity exit; balance-cache fill)", ruleAddFailureAtomic},
